@@ -519,32 +519,42 @@ PROPS["C08"] = dict(
     level_note=LEVEL_NOTE,
     assumptions=["fingerprints of distinct keys differ (hash injective on the keys of a history); the duplicate-key corner is stated separately"],
 )
+from pred_c09b import pred_c09b  # noqa: E402  (interpolation, generated primes, back-end conversion, big-integer wrapper)
+
+
 def pred_c09_all(line, st):
-    """exponentiation lines (pred_c09) plus the square-root summaries of the rabin area"""
+    """exponentiation lines (pred_c09), the square-root summaries of the rabin area, and the arith2 area"""
     if line.startswith("prop.rabin sqrt"):
         return pred_c10(line, st)
+    if line.startswith(("arith2.", "prop.arith2.")):
+        return pred_c09b(line, st)
     return pred_c09(line, st)
 
 
 PROPS["C09"] = dict(
     module="TmcgProps.C09",
     areas=[("arith", {"quick": 600, "thorough": 10000}, [], "san"),
-           ("rabin", {"quick": 1, "thorough": 1}, ["--only-sqrt", "--sqrt-primes", "150"], "san")],
+           ("rabin", {"quick": 1, "thorough": 1}, ["--only-sqrt", "--sqrt-primes", "150"], "san"),
+           ("arith2", {"quick": 200, "thorough": 1000}, [], "san")],
     obligations=[("Tmcg.C09.powm_is_power", "full"), ("Tmcg.C09.powm_neg_is_inverse_power", "full"),
                  ("Tmcg.C09.spowm_eq_powm", "full"), ("Tmcg.C09.spowm_refusals", "full"),
                  ("Tmcg.C09.fpowm_eq_powm", "full"), ("Tmcg.C09.fspowm_eq_powm", "full"),
                  ("Tmcg.C09.fpowm_ui_eq_powm", "full"), ("Tmcg.C09.fpowm_wrong_base_refused", "full"),
                  ("Tmcg.C09.fpowm_exponent_too_large", "full"), ("Tmcg.C09.fpowm_beyond_table_is_zero", "full"),
                  ("Tmcg.C09.baseblind_eq_powm", "full"),
-                 ("Tmcg.C09.sqrtmp_sq_all", "full"), ("Tmcg.C09.sqrtmnR_sq", "full"), ("Tmcg.C09.sqrtmnFastAll_sq", "full")],
+                 ("Tmcg.C09.sqrtmp_sq_all", "full"), ("Tmcg.C09.sqrtmnR_sq", "full"), ("Tmcg.C09.sqrtmnFastAll_sq", "full")]
+                + [("Tmcg.C09." + n, "full") for n in ['interp_reproduces_points', 'interp_collision_refused', 'interp_bad_arguments', 'primeRelOk_safe', 'primeRelOk_safe2g', 'primeRelOk_blum', 'primeRelOk_schnorr', 'primeRelOk_prefix', 'primeRelOk_ordinary', 'two_generates', 'mpiRoundtrip_lossless', 'mpiRoundtrip_total', 'bigint_backend_independent', 'bigint_secure_eq_plain', 'secure_refuses_iff', 'bigintSeq_backend_independent', 'div_mod_nonneg']],
     predicate=pred_c09_all,
     level_text="Theorems in Lean 4: every modular-exponentiation variant of the model (constant-time with dummy operations, table-based, always-multiply, unsigned, base-blinded) equals plain "
                "modular exponentiation for every base coprime to the modulus and every exponent sign; refusals are exceptions, never wrong values. Model vs real functions: exhaustive small moduli + random big cases. "
                "Square roots: all three branches modulo a prime (for every non-residue draw), CRT combination modulo distinct odd primes and the fast variant for Blum moduli square back to their argument (theorems), "
                "exhaustive over all primes below 150 with all residues and all products of two primes below 60 in every run. "
-               "Partial: interpolation is proved in the DKG model only, prime generators, back-end conversion and the big-integer wrapper are not yet covered by this check (area arith2 under construction).",
+               "Interpolation: the model of tmcg_interpolate_polynom reproduces the points for pairwise distinct abscissae modulo a prime and refuses colliding ones (theorems). "
+               "Generated primes: every generator function is called for several sizes and its output judged by an independent Miller-Rabin and the defining relations (predicate), the relation checks themselves are model-vs-code; no theorem about the random search. "
+               "mpz<->mpi conversion lossless on the supported range; the big-integer wrapper: one Int model for both back ends, 40 operators and operation sequences on both back ends against it.",
     level_note=LEVEL_NOTE + " GMP's mpz_powm/mpz_invert/mpz_jacobi are modelled and the model layer itself is compared with GMP.",
-    assumptions=["partial: interpolation / prime generation / mpz<->mpi conversion / TMCG_Bigint not yet covered by this check"],
+    assumptions=["generated primes: relations and sizes are checked on the generated values (predicate + model of the relation check); the random search itself is not modelled",
+                 "the random members of TMCG_Bigint are not covered"],
 )
 
 PROPS["C04"] = dict(
